@@ -7,7 +7,7 @@ from vlib import SPEC, run_tlc
 KEEP = {"fd.new", "close.call", "close.ret", "mmap.ret", "munmap.call", "malloc", "free", "slice", "quiesce", "exit"}
 
 
-def convert(raw_paths, out_path, skip_pids=()):
+def convert(raw_paths, out_path, skip_pids=(), fork_inheritance=False):
     evs = []
     for rp in raw_paths:
         with open(rp) as f:
@@ -24,10 +24,23 @@ def convert(raw_paths, out_path, skip_pids=()):
         if x not in amap:
             amap[x] = len(amap)
         return amap[x]
+    owned = {}   # pid -> {fd: ino}   (only used to recognise descriptors inherited through fork())
     for e in evs:
         ev = e["ev"]
         if ev not in KEEP or e["p"] in skip_pids:
             continue
+        if fork_inheritance:
+            p = e["p"]
+            if ev == "fd.new":
+                owned.setdefault(p, {})[e["fd"]] = e.get("ino")
+            elif ev == "close.call":
+                mine = owned.setdefault(p, {})
+                if e["fd"] not in mine and any(o.get(e["fd"]) == e.get("ino") and e.get("ino", -1) > 0
+                                               for q, o in owned.items() if q != p):
+                    # a fork()ed child closing a descriptor it was born with: it owns it like its parent does
+                    out.append({"ev": "fd.new", "p": p, "fd": e["fd"], "cloexec": 1, "how": 9, "res": 0, "addr": 0,
+                                "len": 0, "ok": 1, "g": e["g"]})
+                mine.pop(e["fd"], None)
         o = {"ev": ev, "p": e.get("pidx", e["p"]), "fd": e.get("fd", 0), "cloexec": e.get("cloexec", 1),
              "how": e.get("how", 0), "res": e.get("res", 0), "addr": A(e.get("addr", 0)), "len": e.get("len", 0),
              "ok": e.get("ok", 1), "g": e["g"]}
